@@ -73,6 +73,13 @@ let () =
         (* a copy of an issued key with an altered signature: the ideal MAC rejects it; nothing changes (C08/C10/C17) *)
         if !s.st_usks = [] then Printf.printf "NOIDX|%s\n" (dump_msk !s.st_msk)
         else Printf.printf "ERR|%s|%s\n" (dump_msk !s.st_msk) (dump_usk (nth !s.st_usks (idx k (List.length !s.st_usks))))
+    | ["HINT"; d; n; h] ->
+        (* the hint of an existing attribute changed in place (driver level: the structure is a public field of the master key) *)
+        let nm = str_of_tok n in
+        let f l = match alookup nm l with Some a -> Some (areplace nm { a_id = a.a_id; a_hyb = (h = "1"); a_enc = a.a_enc } l) | None -> None in
+        (match edit_dim (str_of_tok d) (map_dim f) !s.st_msk.m_st with
+         | Ok st' -> s := { !s with st_msk = { !s.st_msk with m_st = st' } }; p1 ObOk
+         | Err -> p1 ObErr)
     | ["SNAP"] -> snaps := !snaps @ [!s.st_msk]; p1 ObOk
     | ["REST"; k] ->
         if !snaps = [] then Printf.printf "NOIDX|%s\n" (dump_msk !s.st_msk)
